@@ -140,8 +140,12 @@ structure PAcc where
   toIns : List Item := []
   evs : List Ev := []          -- newest first
 
-/-- The body of `iterator` for one item that passed the due test. -/
-def visit (E : Env) (a : PAcc) (it : Item) : PAcc :=
+/-- The body of `iterator` for one item that passed the due test.
+`skip`: ids whose worker is found not receiving at the instant of the visit although it is idle by the time the
+pass ends (a worker that finishes its run in the middle of an Ascend pass: the items of that worker visited before
+that instant were skipped, the ones visited after it are dispatched). The theorems hold for every `skip`. -/
+def visit (E : Env) (skip : List Nat) (a : PAcc) (it : Item) : PAcc :=
+  if skip.contains it.id then a else
   match aget a.busy (E.wk it.id) with
   | some _ => a                       -- `default:` the worker is not receiving
   | none =>
@@ -159,9 +163,9 @@ def applyDel (p : List (Nat × Int) × List Item) (d : Item) : List (Nat × Int)
 def applyIns (p : List (Nat × Int) × List Item) (i : Item) : List (Nat × Int) × List Item :=
   (aset p.1 i.id i.whn, qreplace p.2 i)
 
-def process (E : Env) (s : St) : St :=
+def process (E : Env) (skip : List Nat) (s : St) : St :=
   let due := s.queue.takeWhile (isDue s.now)
-  let a := due.foldl (visit E) { busy := s.busy }
+  let a := due.foldl (visit E skip) { busy := s.busy }
   let p := a.toDel.foldl applyDel (s.index, s.queue)
   let p := a.toIns.foldl applyIns p
   { s with busy := a.busy, index := p.1, queue := p.2, trace := a.evs ++ s.trace }
@@ -170,7 +174,7 @@ def process (E : Env) (s : St) : St :=
 
 /-- One pass of the inner `for` (entered after a tick was consumed). Returns the state and whether the loop
 goes round again (`true`) or `continue schedulerLoop`s back to the `select` (`false`). -/
-def loopIter (E : Env) (s : St) : St × Bool :=
+def loopIter (E : Env) (skip : List Nat) (s : St) : St × Bool :=
   match s.queue.head? with
   | none => ({ s with swhen := none }, false)
   | some it =>
@@ -178,7 +182,7 @@ def loopIter (E : Env) (s : St) : St × Bool :=
       -- `s.timer.Reset(ts.Sub(it.When()))`: now − when, a negative duration; `s.when` is not touched
       ({ s with timer := some (s.now + (s.now - it.whn)) }, false)
     else
-      let s1 := process E s
+      let s1 := process E skip s
       match s1.queue.head? with
       | none => ({ s1 with swhen := none }, false)
       | some it1 =>
@@ -190,15 +194,15 @@ def loopIter (E : Env) (s : St) : St × Bool :=
 
 /-- The main-loop goroutine runs until it blocks: at the `select` with no tick, or spinning in the inner loop
 without being able to dispatch anything (a pass that dispatched nothing leaves the state unchanged). -/
-def loopRun (E : Env) : Nat → St → St
+def loopRun (E : Env) (skip : List Nat) : Nat → St → St
   | 0, s => s
   | f + 1, s =>
     if s.spinning then
-      let r := loopIter E s
+      let r := loopIter E skip s
       if r.2 then
-        (if r.1.trace.length = s.trace.length then r.1 else loopRun E f r.1)
-      else loopRun E f { r.1 with spinning := false }
-    else if s.tick then loopRun E f { s with tick := false, spinning := true }
+        (if r.1.trace.length = s.trace.length then r.1 else loopRun E skip f r.1)
+      else loopRun E skip f { r.1 with spinning := false }
+    else if s.tick then loopRun E skip f { s with tick := false, spinning := true }
     else s
 
 /-- The mock timer fires when the clock is moved and its deadline has been reached (`Mock.Add(0)`); never while a
@@ -213,8 +217,8 @@ def fuel : Nat := 64
 
 /-- What the harness does after every op: let the loop run, move the mock clock by 0, let the loop run (twice:
 the second round is a no-op except that it fires a deadline that could not fire while a tick was pending). -/
-def settle (E : Env) (s : St) : St :=
-  loopRun E fuel (kick (loopRun E fuel (kick (loopRun E fuel s))))
+def settle (E : Env) (skip : List Nat) (s : St) : St :=
+  loopRun E skip fuel (kick (loopRun E skip fuel (kick (loopRun E skip fuel s))))
 
 /-! ### a finished execution (`work`) -/
 
@@ -239,7 +243,7 @@ inductive Act where
   | adv (d : Nat)                       -- the clock moves forward by d seconds
   | fire                                -- the (mock) timer fires
   | consume                             -- the main loop takes the tick and enters its inner loop
-  | iter                                -- one pass of the inner loop
+  | iter (skip : List Nat)              -- one pass of the inner loop
   | done (id : Nat) (res : Res) (cpok : Bool)
 deriving Repr
 
@@ -249,8 +253,8 @@ def act (E : Env) (s : St) : Act → St
   | .adv d => { s with now := s.now + d, trace := Ev.clock (s.now + d) :: s.trace }
   | .fire => kick s
   | .consume => if s.tick && !s.spinning then { s with tick := false, spinning := true } else s
-  | .iter => if s.spinning then
-      let r := loopIter E s
+  | .iter skip => if s.spinning then
+      let r := loopIter E skip s
       { r.1 with spinning := r.2 }
     else s
   | .done id res cpok => done E s id res cpok
@@ -267,11 +271,11 @@ inductive Op where
 deriving Repr
 
 /-- `adv` is refused by the harness while a tick is stuck behind a spinning loop. -/
-def step (E : Env) (s : St) : Op → St
-  | .sched id sc off last => settle E (schedule E s id sc off last)
-  | .rel id => settle E (release s id)
-  | .adv d => if s.tick then settle E s
-              else settle E { s with now := s.now + d, trace := Ev.clock (s.now + d) :: s.trace }
-  | .done id res cpok => settle E (done E s id res cpok)
+def step (E : Env) (skip : List Nat) (s : St) : Op → St
+  | .sched id sc off last => settle E skip (schedule E s id sc off last)
+  | .rel id => settle E skip (release s id)
+  | .adv d => if s.tick then settle E skip s
+              else settle E skip { s with now := s.now + d, trace := Ev.clock (s.now + d) :: s.trace }
+  | .done id res cpok => settle E skip (done E s id res cpok)
 
 end Kap.C17
